@@ -12,18 +12,12 @@ structure Dev where
   varintLt : Bool := false
   /-- F02: `varstr(b'\0')` returns `00` -/
   varstrZero : Bool := false
-  /-- F10: low-S threshold computed with float division (= 2^255) -/
-  lowsFloat : Bool := false
-  /-- F05: base58 address decode left-pads to 25 bytes -/
-  b58Pad : Bool := false
   deriving Repr, DecidableEq
 
 def Dev.none : Dev := {}
 
 def Dev.ofNames (names : List String) : Dev :=
   { varintLt := names.contains "varintLt"
-    varstrZero := names.contains "varstrZero"
-    lowsFloat := names.contains "lowsFloat"
-    b58Pad := names.contains "b58Pad" }
+    varstrZero := names.contains "varstrZero" }
 
 end Btc
